@@ -13,7 +13,10 @@ def project(k, idx, lid_of):
         S = sorted(idx[s] for s in states)
         L = []
         lids = []
+        lf = k.labelling_function()
         for s in sorted(states, key=lambda x: idx[x]):
+            if s not in lf:
+                continue             # possible after the inherited mutators: a state without a label entry
             lab = k.labels(s)
             L.append([idx[s], sorted(str(a) for a in lab)])
             lids.append(lid_of(lab))
@@ -71,6 +74,15 @@ def run_behaviour(b):
                     out = {'ret': 'none'}
                 elif op == 'sub':
                     pool[c['new']] = k.get_substructure(set(name(v) for v in c['X']))
+                    out = {'ret': 'none'}
+                elif op == 'add_node':
+                    k.add_node(name(c['v']))
+                    out = {'ret': 'none'}
+                elif op == 'add_edge':
+                    k.add_edge(name(c['s']), name(c['d']))
+                    out = {'ret': 'none'}
+                elif op == 'label_add':
+                    k.labels(name(c['v'])).add(c['a'])
                     out = {'ret': 'none'}
                 elif op == 'labels':
                     out = {'ret': sorted(str(a) for a in k.labels(name(c['v'])))}
